@@ -337,7 +337,12 @@ def _indent_from_closing_line(t, o: Outcome, LINES) -> Tuple[bool, str]:
     if t[0] == "binop" and t[1] == "-" and t[2] == ("call", glob("len"), (last,), ()):
         r = t[3]
         if r[0] == "call" and r[1] == glob("len") and r[2][0][0] == "call" and r[2][0][1] == ("attr", last, "lstrip"):
-            return True, ""
+            la = r[2][0][2]
+            if not la or (len(la) == 1 and is_const(la[0]) and isinstance(la[0][1], str) and " " in la[0][1] and "\t" in la[0][1]
+                          and "#" not in la[0][1]):
+                return True, ""
+            return False, (f"the indent is measured by lstrip({show(la[0]) if la else ''}), which does not count every whitespace "
+                           f"character: a block indented with tabs is not un-indented")
     return False, f"the indent value `{show(t)[:50]}` is not derived from the closing line only"
 
 
@@ -674,3 +679,49 @@ def rule_runtime_pin(rep: Report, repo: Repo, rule: str) -> None:
               "the runtime version is not pinned to the version the generated lexer/parser were produced for: the serialized ATN "
               "may be rejected or interpreted differently")
     rep.floor(rule, 1, "version pin")
+
+
+# ----------------------------------------------------------------------
+def rule_no_partial_ops(rep: Report, repo: Repo, rule: str) -> None:
+    """C05-R8: processors and callbacks do not apply partial operations to argument text without a guard."""
+    rep.rule(rule, "listener callbacks and processors apply no unguarded partial operation to argument text: no "
+                   "re.match/search/fullmatch(...).group() without a None test, no int()/float()/.index() on argument text, no "
+                   "dict lookup keyed by argument text")
+    lm = listener_model(repo)
+    ci = repo.cls(lm.cls)
+    mm = repo.module(AGG)
+    n = 0
+    for mname, fn in ci.methods.items():
+        if not (mname.startswith("process_") or mname.startswith("enter") or mname == "clean_doc_lines"):
+            continue
+        n += 1
+        probs = []
+        for node in walk_no_nested(fn):
+            if isinstance(node, ast.Call) and isinstance(node.func, ast.Attribute) and node.func.attr in ("group", "groups", "groupdict", "span", "start", "end"):
+                recv = node.func.value
+                if isinstance(recv, ast.Call) and call_name(recv) in ("re.match", "re.search", "re.fullmatch"):
+                    probs.append(f"{norm(node)[:60]}: the match may be None (e.g. '.' does not match a newline)")
+                elif isinstance(recv, ast.Name):
+                    defs = [x.value for x in walk_no_nested(fn) if isinstance(x, ast.Assign) and any(norm(t) == recv.id for t in x.targets)]
+                    if any(isinstance(d, ast.Call) and call_name(d) in ("re.match", "re.search", "re.fullmatch") for d in defs):
+                        from ..model import guards_of
+                        gs = guards_of(fn, node, mm.parents)
+                        guarded = any(recv.id in norm(g.test) for g in gs)
+                        if not guarded:
+                            probs.append(f"{norm(node)[:60]}: `{recv.id}` may be None")
+            if isinstance(node, ast.Call) and call_name(node) in ("int", "float") and node.args and "getText" in norm(node.args[0]):
+                probs.append(f"{norm(node)[:60]}: ValueError for non-numeric argument text")
+            if isinstance(node, ast.Call) and isinstance(node.func, ast.Attribute) and node.func.attr == "index" and node.args \
+                    and isinstance(node.args[0], ast.Constant) and not isinstance(mm.parents.get(node), ast.Try):
+                inside_try = False
+                q = node
+                while q in mm.parents and q is not fn:
+                    q = mm.parents[q]
+                    if isinstance(q, ast.Try):
+                        inside_try = True
+                if not inside_try:
+                    probs.append(f"{norm(node)[:60]}: ValueError when the element is absent")
+        rep.check(not probs, rule, f"{AGG}:{lm.cls}.{mname}", "no unguarded partial operation",
+                  f"a valid input can make this callback raise: {'; '.join(probs)[:200]}",
+                  witness="set(V [=[\nmulti\nline\n]=])  (documented)")
+    rep.floor(rule, 10, "callbacks and processors")
